@@ -90,7 +90,7 @@ def main(run: Run) -> int:
     try:
         dom, op, paths, stats = build_ops(run)
     except pyz3.Unsupported as u:
-        run.ob("translate", "PZ", ERROR, detail=f"source outside PZ subset: {u}")
+        run.ob("translate", "PZ", INCONCLUSIVE, detail=f"source outside PZ subset ({u}); falling back to CrossHair on the real methods")
         return xh_fallback(run)
     run.bounds["domain"] = "all 4^2 pairs and 4^3 triples of {FULFILLED, UNFULFILLED, UNKNOWN, NEUTRAL} per operator (complete)"
     run.bounds["paths_per_operator"] = stats
@@ -266,7 +266,7 @@ def xh_crosscheck(run: Run):
     jobs = [{"fn": n, "timeout": 60} for n in ("assoc", "comm", "neutral_id", "boolean", "closure", "sound", "monotone")]
     results = xh.run_jobs(run, "vf.harness.C03_laws", jobs)
     for r in results:
-        xh.default_verdict(run, r, violation_features=lambda r: {"law": r["fn"], "engine": "XH"})
+        xh.default_verdict(run, r, violation_features=lambda r, rep: {"law": r["fn"], "engine": "XH"})
 
 
 def xh_fallback(run: Run) -> int:
